@@ -155,3 +155,60 @@ def apply(F):
         F._cg = None
         F._by_trait_item = None
     return done
+
+
+# ------------------------------------------------------------------ undo a pure re-ordering of parameters
+def load_params():
+    try:
+        with open(SPEC) as fh:
+            return json.load(fh).get('params', {})
+    except (OSError, ValueError):
+        return {}
+
+
+def _permute_locals(o, mp):
+    if isinstance(o, dict):
+        n = {}
+        for k, v in o.items():
+            if k in ('l', 'idx') and isinstance(v, int):
+                n[k] = mp.get(v, v)
+            else:
+                n[k] = _permute_locals(v, mp)
+        return n
+    if isinstance(o, list):
+        return [_permute_locals(v, mp) for v in o]
+    return o
+
+
+def normalise_param_order(F):
+    """A function whose parameters are the known ones in a different order (same names and types) is renumbered back to
+    the known order, and the argument lists of its direct callers are permuted to match: rules written against `arg2`
+    keep meaning the same parameter."""
+    known = load_params()
+    done = []
+    for gp, fn in list(F.fns.items()):
+        want = known.get(gp)
+        if not want or fn.argc != len(want) or fn.argc < 2:
+            continue
+        have = [[fn.locals[i]['name'], fn.locals[i]['ty']] for i in range(1, fn.argc + 1)]
+        if have == want or sorted(map(tuple, have)) != sorted(map(tuple, want)) or len(set(map(tuple, have))) != len(have):
+            continue
+        # new index of each current parameter
+        mp = {i + 1: want.index(have[i]) + 1 for i in range(fn.argc)}
+        fn.blocks[:] = _permute_locals(fn.blocks, mp)
+        newlocals = list(fn.locals)
+        for old, new in mp.items():
+            newlocals[new] = fn.locals[old]
+        fn.locals[:] = newlocals
+        fn._succ = fn._pred = fn._idom = fn._pdom = fn._defs = fn._cd = None
+        fn._dom_cache = {}
+        inv = {new: old for old, new in mp.items()}
+        for g in F.fns.values():
+            for blk in g.blocks:
+                t = blk['term']
+                if t['k'] == 'call' and len(t['args']) == fn.argc:
+                    cs = F.resolve_callee(g, t)
+                    if len(cs) == 1 and cs[0] is fn:
+                        t['args'] = [t['args'][inv[k] - 1] for k in range(1, fn.argc + 1)]
+        done.append(gp)
+    return done
